@@ -3,7 +3,7 @@
 (`FnSEq.*` in lean/Proofs/FnS*.lean: generated accessor = model function of its defining inputs). Run after adding theorems."""
 import re, os
 ROOT = os.path.dirname(os.path.dirname(os.path.abspath(__file__)))
-HELP = ("s1_", "s2_", "s3_", "s4_", "s5_", "s6_", "sb_", "sd_", "sf_")
+HELP = ("s1_", "s2_", "s3_", "s4_", "s5_", "s6_", "s7_", "sb_", "sd_", "sf_")
 def thms(mod):
     src = open(os.path.join(ROOT, "lean/Proofs", mod + ".lean"), encoding="utf-8").read()
     names = re.findall(r"^(?:@\[simp\] )?theorem ([A-Za-z0-9_']+)", src, re.M)
@@ -16,7 +16,7 @@ PROPS = {
  "C12": ("fortune pillars: the regenerated `DaYun / XiaoYun / LiuNian / LiuYue .GetGanZhi` (and Xun / XunKong) equal the model's 60-cycle arithmetic from the month / hour / Lichun-year pillar, on every input (result, panic or out of fuel)", ["FnSFortune"]),
  "C13": ("festivals and seasonal names: the regenerated `Lunar.GetFestivals` reports New Year's Eve exactly under the coded rule (and nothing in the table is called 除夕); `GetHou` / `GetWuHou` equal the model", ["FnSLunarFest", "FnSHou"]),
  "C19": ("formatting: `%0wd`, `ToYmd`, `ToYmdHms` and the Chinese renderings of the regenerated code equal the model's renderings", ["FnSFmt", "FnSRender"]),
- "C16": ("nine-star object: every naming system (number, colour, element, position, Xuan Kong, Bei Dou, Qi Men, Tai Yi) reads its nine-entry table at the SAME index, is total on 0..8 and panics outside", ["FnSNineStarObj"]),
+ "C16": ("nine-star object: every naming system (number, colour, element, position, Xuan Kong, Bei Dou, Qi Men, Tai Yi) reads its nine-entry table at the SAME index, is total on 0..8 and panics outside; the year star (three conventions) and the month star of the regenerated code — no atoms in string mode — equal the model", ["FnSNineStarObj", "FnSStars"]),
  "C05": ("hour branch: the regenerated `LunarUtil.GetTimeZhiIndex` on the \"%02d:%02d\" key equals the model's scan, and the string-mode `computeTime` equals the model's time pillar (this discharges the atom of the int-mode `computeTime`)", ["FnSTimeZhi"]),
  "C20": ("zodiac sign and civil festivals: the regenerated `GetXingZuo` equals the model's for all month / day integers; the regenerated `Solar.GetFestivals` is the model's fixed-date + k-th weekday + last-weekday list", ["FnSXingZuo", "FnSSolarFest"]),
 }
